@@ -306,6 +306,11 @@ func (c *cuckooSentCache) Resize(cfg config.SampleCacheConfig) error {
 // The bool return value is true if the trace was found in the cache.
 // It does not modify the count information.
 func (c *cuckooSentCache) CheckTrace(traceID string) (TraceSentRecord, string, bool) {
+	// was it recently dropped? The drop filter is filled asynchronously, so a
+	// drop that was just recorded is only in the recent set.
+	if c.recentDroppedIDs.Contains(traceID) {
+		return &cuckooDroppedRecord{}, "", true
+	}
 	// was it dropped?
 	if c.dropped.Check(traceID) {
 		// we recognize it as dropped, so just say so; there's nothing else to do
